@@ -286,6 +286,10 @@ var hashPrefixes = map[crypto.Hash][]byte{
 // messages to signatures and identify the signed messages. As ever,
 // signatures provide authenticity, not confidentiality.
 func SignPKCS1v15(random io.Reader, priv *PrivateKey, hash crypto.Hash, hashed []byte) ([]byte, error) {
+	if err := checkPub(&priv.PublicKey); err != nil {
+		return nil, err
+	}
+
 	// pkcs1v15ConstructEM is called before boring.SignRSAPKCS1v15 to return
 	// consistent errors, including ErrMessageTooLong.
 	em, err := pkcs1v15ConstructEM(&priv.PublicKey, hash, hashed)
@@ -348,6 +352,10 @@ func VerifyPKCS1v15(pub *PublicKey, hash crypto.Hash, hashed []byte, sig []byte)
 	// 	...
 	// 	return boring.VerifyRSAPKCS1v15(bkey, hash, hashed, sig)
 	// }
+
+	if err := checkPub(pub); err != nil {
+		return err
+	}
 
 	// RFC 8017 Section 8.2.2: If the length of the signature S is not k
 	// octets (where k is the length in octets of the RSA modulus n), output
